@@ -50,7 +50,8 @@ Fault *Kernel::match_fault(CallId c, const std::string &path) {
     if (f.fired) continue;
     if (f.call != C_ANY && f.call != c) continue;
     if (f.call == C_ANY && (c == C_MALLOC)) continue;
-    if (!f.actor.empty()) { if (actor.empty()) actor = p->actor(); if (actor.compare(0, f.actor.size(), f.actor) != 0) continue; }
+    if (f.actor.compare(0, 4, "tag:") == 0) { if (p->tag != f.actor.substr(4)) continue; }   // a process the world tagged at spawn ("tag:second")
+    else if (!f.actor.empty()) { if (actor.empty()) actor = p->actor(); if (actor.compare(0, f.actor.size(), f.actor) != 0) continue; }
     if (!f.path.empty()) {
       // path arguments are matched in absolute form, so that "/remote/" also matches the daemon's relative "remote/15/222"
       if (!path.empty() && path[0] != '/' && full.empty()) full = p->cwd_path + (p->cwd_path.empty() || p->cwd_path.back() != '/' ? "/" : "") + path;
